@@ -244,10 +244,12 @@ def _encf(f):
     return {'c0': rat(f['c0']), 'c1': rat(f['c1'])}
 
 
-def validate(traces, parallel=8):
-    """traces: list of event lists.  Returns (verdicts by tid, stats)."""
+def validate(traces, parallel=14):
+    """traces: list of event lists.  Returns (verdicts by tid, stats).  The traces are packed into the parallel TLC runs by
+    the size of the densities they carry (a 5-population sweep costs far more to judge than a 1-population one)."""
     allrecs = [e for tr in traces for e in tr]
-    return common.validate_trace('Trace_Integrator', allrecs, parallel=parallel, groups=traces)
+    cost = lambda tr: sum(1 + len(e.get('before', ())) for e in tr)
+    return common.validate_trace('Trace_Integrator', allrecs, parallel=parallel, groups=traces, group_weight=cost)
 
 
 def mutate_trace(tr):
